@@ -80,13 +80,38 @@ SdrShort == { Script("sdr-permanent-50", "sdr", "permanent", <<50, 300>>, Handsh
 \* C18 over real time: a call that keeps being retried until its deadline, which falls inside a back-off sleep
 MetricScripts == { Sessionless(f, r) : f \in {"temp", "garbage", "blackhole"}, r \in {<<900, 300>>, <<700, 200>>, <<1300, 150>>} }
                  \cup { InSession("temp", r) : r \in {<<900, 300>>, <<1300, 150>>} }
+\* histories: an earlier call on the same connection was made with a context that is still alive (an application-wide
+\* context) and outlives the later call's deadline; the later call, with its own short deadline, meets the fault
+Alive(call) == call @@ [ctx |-> [ms |-> 2500, keepAlive |-> TRUE],
+                        exp |-> [prop |-> "C13", outcome |-> "timed", deadlineMs |-> 2500, allowMs |-> 750, mustErr |-> FALSE]]
+AliveQuiet(call) == call @@ [ctx |-> [ms |-> 2500, keepAlive |-> TRUE]]
+FirstThen(first, then) == << [rule |-> "first", when |-> first.when, ifstate |-> [name |-> "n", eq |-> 0], effects |-> << [k |-> "inc", name |-> "n"] >>,
+                              datagrams |-> first.datagrams], then >>
+HScript(id, kind, f, r, rules, steps) == [Script(id, kind, f, r, rules, steps) EXCEPT !.steps = << [k |-> "rules", rules |-> rules, state |-> [n |-> 0]] >> \o steps]
+Histories ==
+  LET r == <<400, 150>> IN
+  UNION { { HScript("hist-sl-" \o f, "history-sessionless", f, r,
+                    FirstThen(Rule("ok", <<IsPt(0)>>, NowValid(NullReply(11, 16, 0, <<5>>), 0)),
+                              Rule("cmd", <<IsPt(0)>>, Faulty(f, NullReply(11, 16, 0, <<5>>), NullReply(11, 16, 192, <<>>)))),
+                    << Alive(RawCall("conn")), TimedCall(RawCall("conn"), r[1], MustErr(f)) >>),
+            HScript("hist-hs-" \o f, "history-handshake", f, r,
+                    << Rule("ok", <<IsPt(0)>>, NowValid(NullReply(11, 16, 0, <<5>>), 0)),
+                       [OsrRule EXCEPT !.datagrams = Faulty(f, OsrRule.datagrams[1].t, Garbage), !.rule = "faulty-leg"] >>,
+                    << Alive(RawCall("conn")), TimedCall(OpenCall, r[1], MustErr(f)) >>),
+            HScript("hist-is-" \o f, "history-in-session", f, r,
+                    Handshake \o << Rule("cmd", <<InSess>>, Faulty(f, InSessReply(11, 16, 0, <<5>>), InSessReply(11, 16, 192, <<>>))) >>,
+                    << AliveQuiet(OpenCall), TimedCall(RawCall("sess"), r[1], TRUE) >>),
+            HScript("hist-sdr-" \o f, "history-sdr", f, r,
+                    Handshake \o << Rule("cmd", <<InSess>>, Faulty(f, InSessReply(11, 32, 0, <<81, 0, 0, 0, 0, 1, 0, 0, 0, 1, 0, 0, 0, 2>>), InSessReply(11, 32, 192, <<>>))) >>,
+                    << AliveQuiet(OpenCall), TimedCall(SdrCall, r[1], TRUE) >>) }
+          : f \in {"blackhole", "garbage", "temp"} }
 AllFaults == {"blackhole", "late", "garbage", "temp"}
 Scripts == IF Family = "metrics" THEN MetricScripts ELSE
   LET rs == IF Full \/ Family = "all" THEN Ratios ELSE {r \in Ratios : TRUE} IN
   UNION { { Sessionless(f, r), InSession(f, r), Close(f, r) } : f \in AllFaults, r \in rs }
   \cup { HandshakeLeg(f, leg, r) : f \in AllFaults \cup {"trunc"}, leg \in 1..3, r \in (IF Full THEN rs ELSE {<<250, 1000>>, <<900, 300>>}) }
   \cup { Sdr(f, r) : f \in {"blackhole", "late", "garbage", "temp", "permanent"}, r \in (IF Full THEN rs ELSE {<<250, 1000>>, <<900, 300>>}) }
-  \cup ExpiredScripts \cup SdrShort
+  \cup ExpiredScripts \cup SdrShort \cup Histories
 Header == [header |-> TRUE, family |-> "timing", defs |-> SessionDefs(S), stable |-> <<"SIK", "K1", "K2">>]
 ASSUME PrintT(<<"HEADER", ToJson(Header)>>)
 ASSUME \A s \in Scripts : PrintT(<<"SCRIPT", ToJson(s)>>)
